@@ -124,6 +124,17 @@ class Exec(StmtMixin):
                     raise Unsupported("%s is declared pure but reads an attribute (line %s)" % (c.qual, n.lineno))
                 if isinstance(n, (ast.Call, ast.Await, ast.Yield, ast.Global, ast.Nonlocal)):
                     raise Unsupported("%s is declared pure but contains %s (line %s)" % (c.qual, type(n).__name__, n.lineno))
+        # every hook must bind to at least one call (or yield) of the real function: a hook that matches nothing
+        # would make its assertions vacuous
+        import fnmatch
+        calls = [n for n in ast.walk(self.fnode) if isinstance(n, ast.Call)]
+        texts = set()
+        for n in calls:
+            t = ast.unparse(n.func)
+            texts.update((t, "%s/%d" % (t, len(n.args)), "%s#%d" % (t, self.call_occurrence(n, t))))
+        for h in c.hooks:
+            if h[0] in ("before", "after", "after-await") and not any(fnmatch.fnmatchcase(t, h[1]) for t in texts):
+                raise BindingError("hook pattern %r of %s matches no call in the function" % (h[1], c.qual))
         body = self.fnode.body
         frag = getattr(c, "fragment_", None)
         if frag is not None:
